@@ -108,6 +108,10 @@ pub fn check(c: &Case3, st: &mut Stats, p: &Paths, budget: usize) -> CheckResult
     let text = c.prog.text();
     let cmds = c.prog.mcmds();
     let m = run_model(&cmds, &c.prog.stdin, budget, 7, false);
+    if m.flags.stack_ops > 4_000_000 {
+        st.exclude("more than 4 million stack operations (too slow to judge with a fixed CPU limit)");
+        return Ok(());
+    }
     if !matches!(m.end, End::Normal | End::Stop(Stop::Exit(_)) | End::Stop(Stop::Encoding(_))) {
         st.exclude(describe_end(&m.end));
         return Ok(());
